@@ -180,7 +180,7 @@ class AnfTransformer(transformer.Base):
     if isinstance(node, ast.keyword):
       node.value = self._ensure_node_in_anf(parent, field, node.value)
       return node
-    if isinstance(node, (ast.Starred, ast.withitem, ast.slice)):
+    if isinstance(node, (ast.Starred, ast.withitem, ast.Slice)):
       # These nodes aren't really extractable in their own right, but their
       # subnodes might be.  Propagate the parent and field name to the child
       # nodes, instead of querying the configuration for children of, e.g.,
